@@ -90,6 +90,7 @@ type seqDriver struct {
 	keys   []string
 	trace  []string
 	reads  int
+	nopen  int
 	ntxn   int
 	insitu struct {
 		sync.Mutex
@@ -110,8 +111,26 @@ func (d *seqDriver) fail(sig, f string, a ...any) {
 }
 
 func (d *seqDriver) open() bool {
-	if p := eng.Safely(func() { d.db = eng.Open(d.dir, d.cfg) }); p != "" {
-		d.fail("open-panic", "Open panicked: %s", p)
+	dir := d.dir
+	if d.c.Int("pathspell", 0) == 1 {
+		// the same directory, spelled differently by each incarnation
+		switch d.nopen % 4 {
+		case 1:
+			dir = d.dir + "/"
+		case 2:
+			dir = filepath.Dir(d.dir) + "/./" + filepath.Base(d.dir)
+		case 3:
+			if wd, err := os.Getwd(); err == nil {
+				if rel, err := filepath.Rel(wd, d.dir); err == nil {
+					dir = rel
+				}
+			}
+		}
+		d.logf("Open(%q)", dir)
+	}
+	d.nopen++
+	if p := eng.Safely(func() { d.db = eng.Open(dir, d.cfg) }); p != "" {
+		d.fail("open-panic", "Open(%q) panicked: %s", dir, p)
 		return false
 	}
 	return true
@@ -534,6 +553,9 @@ func genSeq(tier string, seed int64, prop string, nQuick, nThorough int) []core.
 		if i < 2 {
 			c.N["sample"] = 1
 		}
+		if prop == "C02" && i%4 == 2 {
+			c.N["pathspell"] = 1
+		}
 		if i%8 == 7 {
 			c.N["wide"] = 1 // configuration drawn from the wide range (zero values = defaults, large geometry)
 			if c.N["big"] == 0 {
@@ -557,7 +579,7 @@ func init() {
 	})
 	core.Register(&core.Check{
 		Prop: "C02", Level: "exploration",
-		Rule:      "case = a C01 program with Close/Open cycles: periodically, right after a commit that rotated the memtable (then possibly once more with an empty memtable), with a non-empty flush queue, directly after Open, and at the end; every parameter except L0TargetNum/LevelRatio is re-drawn per incarnation; after each reopen all keys are read against the model, then (half of the time) every key is overwritten and read again; non-trivial = >=2 reopens of which >=1 over a directory with tables on >=2 levels; distinct by case parameters",
+		Rule:      "case = a C01 program with Close/Open cycles: periodically, right after a commit that rotated the memtable (then possibly once more with an empty memtable), with a non-empty flush queue, directly after Open, and at the end; every parameter except L0TargetNum/LevelRatio is re-drawn per incarnation; every fourth case spells the directory differently at each Open (trailing slash, /./, relative path); after each reopen all keys are read against the model, then (half of the time) every key is overwritten and read again; non-trivial = >=2 reopens of which >=1 over a directory with tables on >=2 levels; distinct by case parameters",
 		Gen:       func(tier string, seed int64) []core.Case { return genSeq(tier, seed, "C02", 64, 500) },
 		Run:       func(c core.Case) core.Result { return runSeq(c, "C02", true) },
 		BatchSize: 4, GoMaxProcs: 2, Parallel: 8,
